@@ -28,6 +28,34 @@ type GenParams struct {
 	WBackup                                                               int
 	ROPct                                                                 int // percentage of reopens that are read-only
 	IxProbeExtra                                                          int
+	// BigEvery: every BigEvery-th history is drawn in the "big" regime (batches of dozens of messages, segments of
+	// dozens to hundreds of messages, hundreds of distinct keys, delete sets of dozens of offsets): whatever only
+	// happens beyond a count or size that small histories never reach (search shortcuts, scan pages, tree node growth)
+	BigEvery int
+	big      bool
+	// LargeEvery: every LargeEvery-th history uses bodies beyond 64 KiB (the readers' large-record path), several per
+	// segment and per scan batch, of equal or decreasing size
+	LargeEvery int
+}
+
+var bigKeys = func() []string {
+	ks := []string{"n", "a", "b", "g"}
+	for n := 1; n <= 300; n++ {
+		ks = append(ks, fmt.Sprintf("k%d", n))
+	}
+	return ks
+}()
+
+func bigify(p GenParams, rng *rand.Rand) GenParams {
+	p.big = true
+	p.MaxBatch = 50
+	p.Steps = 9 + rng.Intn(4)
+	p.Rollovers = []int64{1500, 6000, 30000, 300000}
+	p.VLens = []int{0, 1, 3, 8, 20}
+	if len(p.KeyPool) > 4 {
+		p.KeyPool = bigKeys
+	}
+	return p
 }
 
 func pick[T any](rng *rand.Rand, xs []T) T { return xs[rng.Intn(len(xs))] }
@@ -126,6 +154,9 @@ func (g *genState) msg() MsgSpec {
 	if g.rng.Intn(3) == 0 {
 		m.O = int64(g.rng.Intn(2000)) - 1000 // garbage offset from the caller
 	}
+	if g.rng.Intn(4) == 0 {
+		m.NS = 1 + g.rng.Intn(999) // sub-microsecond digits: the microsecond is kept (floor, also before 1970)
+	}
 	return m
 }
 
@@ -155,7 +186,11 @@ func (g *genState) delSet() []int64 {
 			set[o] = true
 		}
 	default:
-		for i := 0; i < 1+g.rng.Intn(4); i++ {
+		k := 1 + g.rng.Intn(4)
+		if g.p.big && g.rng.Intn(2) == 0 {
+			k = 20 + g.rng.Intn(60)
+		}
+		for i := 0; i < k; i++ {
 			set[int64(g.rng.Intn(int(hi)))] = true
 		}
 	}
@@ -177,6 +212,13 @@ func (g *genState) delSet() []int64 {
 
 func genHistory(id int, seed int64, p GenParams) *History {
 	rng := rand.New(rand.NewSource(seed*1000003 + int64(id)))
+	if p.BigEvery > 0 && id%p.BigEvery == p.BigEvery-1 {
+		p = bigify(p, rng)
+	} else if p.LargeEvery > 0 && id%p.LargeEvery == p.LargeEvery-1 {
+		p.VLens = []int{66000, 66000, 70000, 65505, 3, 20, 0}
+		p.Rollovers = []int64{150000, 400000, 1000}
+		p.Steps, p.MaxBatch = 12, 3
+	}
 	h := &History{ID: id}
 	ic := p.IndexCfg
 	if ic < 0 {
@@ -188,6 +230,10 @@ func genHistory(id int, seed int64, p GenParams) *History {
 	if p.Epoch0 && p.TimeMode == "mono" {
 		h.Epoch0 = true
 		g.t = 0 // absolute times 0, 1, 2, ... microseconds after the Unix epoch: as small as the offsets
+	}
+	if p.Epoch0 && p.TimeMode == "any" {
+		h.Epoch0 = true
+		g.t = -25 // times just before (and across) the Unix epoch: negative microsecond values
 	}
 	if p.TimeMode == "spaced" || p.TimeMode == "spacedany" {
 		g.t = -int64(p.Steps*p.MaxBatch+10) * 200000 // in the past, so that "now - age" cut-offs make sense
@@ -221,7 +267,7 @@ func genHistory(id int, seed int64, p GenParams) *History {
 		switch {
 		case r < p.WPublish:
 			n := rng.Intn(p.MaxBatch + 1)
-			if rng.Intn(3) > 0 && n > 2 {
+			if rng.Intn(3) > 0 && n > 2 && !p.big {
 				n = 1 + rng.Intn(2)
 			}
 			op := Op{Op: "publish"}
@@ -344,6 +390,9 @@ func genSweepHistory(id int, seed int64) *History {
 				vl = pick(rng, []int{65536, 300000, 1 << 20})
 			}
 			m := MsgSpec{K: "n", T: int64(rng.Intn(len(extremeTimes)))}
+			if rng.Intn(3) == 0 {
+				m.NS = 1 + rng.Intn(999)
+			}
 			if kl > 0 {
 				m.K = fmt.Sprintf("k%d", kl)
 			}
@@ -368,6 +417,41 @@ func genSweepHistory(id int, seed int64) *History {
 			if i%2 == 0 {
 				h.Ops = append(h.Ops, Op{Op: "close"}, Op{Op: "open", O: o})
 			}
+		}
+	}
+	h.Ops = append(h.Ops, Op{Op: "close"})
+	return h
+}
+
+// genHugeHistory: thousands of messages in one segment and delete sets of more than a thousand offsets in one call
+// (whatever is capped, paged or batched per rewrite shows only there). Few steps: every event carries the whole log.
+func genHugeHistory(id int, seed int64) *History {
+	rng := rand.New(rand.NewSource(seed*1000003 + int64(id)))
+	h := &History{ID: id, Keys: id&1 == 1, Times: id&2 == 2, Mono: true}
+	o := &OptSpec{Rollover: int64(pick(rng, []int{1 << 24, 1 << 24, 300000})), NewVer: 1 + rng.Intn(2), Keep: rng.Intn(2) == 0}
+	h.Ops = append(h.Ops, Op{Op: "open", O: o})
+	vid, t := 0, int64(1000)
+	next := int64(0)
+	for b := 0; b < 2; b++ {
+		op := Op{Op: "publish"}
+		for k := 0; k < 1300+rng.Intn(500); k++ {
+			vid++
+			t += int64(rng.Intn(2))
+			op.Batch = append(op.Batch, MsgSpec{K: pick(rng, bigKeys), V: vid, VL: 1 + rng.Intn(3), T: t})
+		}
+		next += int64(len(op.Batch))
+		h.Ops = append(h.Ops, op)
+	}
+	for d := 0; d < 2; d++ {
+		var S []int64
+		for off := int64(0); off < next; off++ {
+			if rng.Intn(100) < 55 {
+				S = append(S, off)
+			}
+		}
+		h.Ops = append(h.Ops, Op{Op: "delete", S: S, Multi: d == 1})
+		if d == 0 && rng.Intn(2) == 0 {
+			h.Ops = append(h.Ops, Op{Op: "close"}, Op{Op: "open", O: o})
 		}
 	}
 	h.Ops = append(h.Ops, Op{Op: "close"})
